@@ -281,6 +281,9 @@ pub fn gen_case(seed: u64, k: u64) -> Case {
         // shallow enough for every stack)
         let depth = *rng.pick(&[14usize, 24, 24, 40, 400, 3_000, 40_000]);
         let kind = rng.below(19);
+        // (an identifier path of 40 000 components costs a second or more per pass - quadratic, not a verdict - and
+        // a project that needs 256 passes then sits on a worker for minutes: the thorough tier met two of those)
+        let depth = if kind == 15 { depth.min(2_000) } else { depth };
         let (open, mid, close): (&str, &str, &str) = match kind {
             0 => ("(", "1", ")"),
             1 => ("{", " nop ", "}"),
@@ -513,6 +516,7 @@ pub struct RunStats {
     pub max_passes: u64,
     pub max_work: u64,
     pub max_parse_ratio: u64,
+    pub max_lookups: u64,
     pub invocations: u64,
     pub diagnostics: u64,
     pub produced_output: bool,
@@ -623,6 +627,16 @@ fn panic_found(pipeline: &str, stage: &str) -> Found {
             class: "nonterminating_expansion".into(),
             sig: "nonterminating:expansion".into(),
             message: format!("pipeline {} does not terminate in any useful sense: {} (decided on the logical clock of emitted tokens)", pipeline, b.message),
+        };
+    }
+    if let Some(b) = p
+        .iter()
+        .find(|p| p.message.contains(passwatch::LOOKUP_BUDGET_MARKER))
+    {
+        return Found {
+            class: "nonterminating_expansion".into(),
+            sig: "nonterminating:lookups".into(),
+            message: format!("pipeline {} does not terminate in any useful sense: {} (decided on the logical clock of symbol lookup steps)", pipeline, b.message),
         };
     }
     if let Some(b) = p
@@ -775,6 +789,7 @@ pub fn execute(c: &Case, stats: &mut RunStats) -> Option<Found> {
     stats.max_passes = ps.max_passes as u64;
     stats.max_work = ps.max_work;
     stats.max_parse_ratio = ps.max_parse_ratio;
+    stats.max_lookups = ps.max_lookups;
     stats.invocations = ps.invocations;
     let d = disk::uninstall().unwrap();
     for (k, v) in &d.fired {
@@ -1329,7 +1344,7 @@ fn minimise_inner(cli: &Cli, c: &Case, found: &Found, sig: &str) -> (Case, Found
 
 fn stats_json(agg: &Agg) -> Value {
     json!({
-        "runs": agg.runs, "faults_fired": agg.faults_fired, "max_passes": agg.max_passes, "max_work": agg.max_work, "max_parse_ratio": agg.max_parse_ratio, "invocations": agg.invocations,
+        "runs": agg.runs, "faults_fired": agg.faults_fired, "max_passes": agg.max_passes, "max_work": agg.max_work, "max_parse_ratio": agg.max_parse_ratio, "max_lookups": agg.max_lookups, "invocations": agg.invocations,
         "diagnostics": agg.diagnostics, "labels_checked": agg.labels_checked, "pipelines": agg.pipelines, "results": agg.results,
         "runs_with_fault_fired": agg.runs_with_fault, "reads": agg.reads, "max_reads": agg.max_reads, "pass_histogram": agg.pass_hist,
     })
@@ -1342,6 +1357,7 @@ struct Agg {
     max_passes: u64,
     max_work: u64,
     max_parse_ratio: u64,
+    max_lookups: u64,
     invocations: u64,
     diagnostics: u64,
     labels_checked: u64,
@@ -1365,6 +1381,7 @@ impl Agg {
         self.max_passes = self.max_passes.max(st.max_passes);
         self.max_work = self.max_work.max(st.max_work);
         self.max_parse_ratio = self.max_parse_ratio.max(st.max_parse_ratio);
+        self.max_lookups = self.max_lookups.max(st.max_lookups);
         self.invocations += st.invocations;
         self.diagnostics += st.diagnostics;
         self.labels_checked += st.labels_checked;
@@ -1559,6 +1576,7 @@ pub fn main(cli: &Cli) -> i32 {
     let mut max_reads = 0u64;
     let mut max_work = 0u64;
     let mut max_parse_ratio = 0u64;
+    let mut max_lookups = 0u64;
     for s in &sup.stats {
         for key in [
             "runs",
@@ -1574,6 +1592,7 @@ pub fn main(cli: &Cli) -> i32 {
         max_passes = max_passes.max(s.get("max_passes").and_then(|x| x.as_u64()).unwrap_or(0));
         max_work = max_work.max(s.get("max_work").and_then(|x| x.as_u64()).unwrap_or(0));
         max_parse_ratio = max_parse_ratio.max(s.get("max_parse_ratio").and_then(|x| x.as_u64()).unwrap_or(0));
+        max_lookups = max_lookups.max(s.get("max_lookups").and_then(|x| x.as_u64()).unwrap_or(0));
         max_reads = max_reads.max(s.get("max_reads").and_then(|x| x.as_u64()).unwrap_or(0));
         add_u64(&mut faults, s.get("faults_fired"));
         add_u64(&mut pipelines, s.get("pipelines"));
@@ -1677,6 +1696,7 @@ pub fn main(cli: &Cli) -> i32 {
     ev.set("max_passes_of_any_run", json!(max_passes));
     ev.set("max_tokens_emitted_in_one_pass", json!(max_work));
     ev.set("max_parse_attempts_per_byte", json!(max_parse_ratio as f64 / 1000.0));
+    ev.set("max_lookup_steps_in_one_pass", json!(max_lookups));
     ev.set(
         "token_emission_budget_per_pass",
         json!(passwatch::WORK_BUDGET),
